@@ -8,6 +8,7 @@ package ckit
 
 import (
 	"context"
+	"encoding/json"
 	"fmt"
 	"os"
 	"path/filepath"
@@ -244,6 +245,10 @@ type NodeSnap struct {
 	Labels []string `json:"labels,omitempty"` // sorted k=v
 	Cap    Res      `json:"cap"`
 	Usage  Res      `json:"usage"`
+	// CapSig / UsageSig: canonical JSON of the plugin's complete capacity / usage record (every field
+	// the plugin stores, incl. the cpu→NUMA-node map and zero-valued entries that Res drops)
+	CapSig   string `json:"capsig"`
+	UsageSig string `json:"usagesig"`
 	// Diffs is what the code's own node resource check (GetNodeResourceInfo with the recorded
 	// workloads, fix=false) reports.
 	Diffs []string `json:"diffs,omitempty"`
@@ -351,6 +356,9 @@ func (cl *Cluster) Snapshot() *Snapshot {
 			ns.NoPlugin = true
 		} else {
 			ns.Cap, ns.Usage, ns.Diffs = NodeRes(capa), NodeRes(usage), diffs
+			cb, _ := json.Marshal(capa)
+			ub, _ := json.Marshal(usage)
+			ns.CapSig, ns.UsageSig = string(cb), string(ub)
 		}
 		s.Nodes = append(s.Nodes, ns)
 	}
